@@ -1,4 +1,4 @@
-_E = dict(cls='P', tu='C11_enc_ctl.c', dfcc=False, timeout=600, unwind=2, functions=['opus_encoder_ctl', 'user_bitrate_to_bitrate'],
+_E = dict(cls='P', tu='C11_enc_ctl.c', dfcc=False, timeout=600, unwind=2, cbmc_flags=['--object-bits', '10', '--no-array-field-sensitivity'], functions=['opus_encoder_ctl', 'user_bitrate_to_bitrate'],
           trusted=['stub body for celt_encoder_ctl (variadic, other TU): returns OPUS_OK and touches nothing of OpusEncoder'])
 GROUPS = []
 for _n in ['application', 'force_channels', 'max_bandwidth', 'dtx', 'complexity', 'inband_fec', 'packet_loss_perc', 'vbr', 'voice_ratio', 'vbr_constraint', 'signal', 'lsb_depth', 'expert_frame_duration', 'prediction_disabled']:
@@ -7,4 +7,14 @@ for _n in ['application', 'force_channels', 'max_bandwidth', 'dtx', 'complexity'
 GROUPS.append(dict(_E, name='enc_set_bandwidth', entry='h_set_bandwidth', expect_canaries=2, what='OPUS_SET_BANDWIDTH: legal/illegal, coupled SILK rate cap'))
 GROUPS.append(dict(_E, name='enc_set_bitrate', entry='h_set_bitrate', expect_canaries=2, what='OPUS_SET_BITRATE clamping and OPUS_GET_BITRATE AUTO/MAX resolution'))
 GROUPS.append(dict(_E, name='enc_getters_unknown', entry='h_getters_unknown', what='read-only getters, null pointers, unknown request => OPUS_UNIMPLEMENTED'))
+_D = dict(cls='P', tu='C11_dec_ctl.c', dfcc=False, timeout=600, unwind=2,
+          trusted=['stub bodies for celt_decoder_ctl, silk_Get_Decoder_Size, celt_decoder_get_size, silk_InitDecoder, silk_ResetDecoder, celt_decoder_init (other TUs)'])
+GROUPS += [
+ dict(_D, name='dec_set_gain', entry='h_dec_set_gain', expect_canaries=2, functions=['opus_decoder_ctl'], what='OPUS_SET_GAIN / OPUS_GET_GAIN, all 2^32 values'),
+ dict(_D, name='dec_set_complexity', entry='h_dec_set_complexity', expect_canaries=2, functions=['opus_decoder_ctl'], what='decoder OPUS_SET_COMPLEXITY / GET'),
+ dict(_D, name='dec_getters_unknown', entry='h_dec_getters_unknown', functions=['opus_decoder_ctl'], what='decoder getters, null pointers, undefined and encoder-only requests => OPUS_UNIMPLEMENTED'),
+ dict(_D, name='dec_init', entry='h_dec_init', expect_canaries=2, functions=['opus_decoder_init', 'opus_decoder_get_size'], what='opus_decoder_init / get_size argument validation and sub-state layout'),
+ dict(_D, name='dec_create', entry='h_dec_create', expect_canaries=2, functions=['opus_decoder_create', 'opus_decoder_destroy'],
+      cbmc_flags=['--object-bits', '10', '--malloc-may-fail', '--malloc-fail-null', '--memory-leak-check'], what='opus_decoder_create: bad arguments, allocation failure, no leak'),
+]
 META = {}
